@@ -69,7 +69,7 @@ CHUNKINGS: Dict[str, List[tuple]] = {
     "cw": [(BIGW, False)],
     "cf": [(BIGF, True), (b"tail", False)],
 }
-STATUSES = [200, 201, 204, 304, 404, 500]
+STATUSES = [200, 201, 204, 205, 304, 404, 500]  # 205: a status that is NOT body-less (only 1xx/204/304 are)
 CARRIERS = ["h1", "h10", "h2", "h2c"]
 HDRS = ["none", "cl", "rep"]
 TRAILERS = [(b"x-trailer", b"t1"), (b"x-sum", b"2")]
